@@ -34,7 +34,7 @@
 //     local of the function: the function F is split (on the syntax tree) into F_body (F without the defer statement),
 //     F_deferred (the closure body) and F := { r.. := F_body(params); F_deferred(); return r.. }.  A panic in F_body
 //     is GPanic (Go would still run the deferred function, then go on panicking: the outcome is a panic either way).
-//   * (target 2, enumerateTables) see the second half of this file.
+//   * methods over the world, Go maps as events, printf events, []uintptr locals: see the second half of this file.
 package main
 
 import (
@@ -44,6 +44,8 @@ import (
 	"go/parser"
 	"go/token"
 	"path/filepath"
+	"sort"
+	"strconv"
 	"strings"
 )
 
@@ -57,10 +59,11 @@ type acpiCfgT struct {
 	Structs    map[string]acpiStructCfg `json:"structs"`
 	Vars       map[string]string        `json:"vars"`
 	// target 2
-	RecvFields map[string]string `json:"recvfields"` // field of the method receiver that is only read -> "coqname:width" (extra parameter)
-	MapFields  map[string]string `json:"mapfields"`  // receiver field holding a Go map -> event name prefix
-	PureFns    map[string]string `json:"purefns"`    // pkg.F -> "CoqFunction:width": a pure function of another package given by a Coq function
-	Printf     map[string]string `json:"printf"`     // callee text (kfmt.Fprintf) -> event name
+	Recv         map[string]acpiRecvCfg `json:"recv"`         // struct -> read-only receiver fields -> width ("64", "-1" = bool)
+	MapFields    map[string]string      `json:"mapfields"`    // receiver field holding a Go map -> event name prefix
+	PureFns      map[string]string      `json:"purefns"`      // pkg.F -> "CoqFunction:width": a pure function of another package given by a Coq function
+	Printf       map[string]string      `json:"printf"`       // callee text (kfmt.Fprintf) -> event name
+	OpaqueParams []string               `json:"opaqueparams"` // parameter types that are dropped (io.Writer)
 }
 
 var acpiWrap struct {
@@ -835,10 +838,103 @@ func acpiDefer(spec fnSpec, decl *ast.FuncDecl, file *ast.File) []fnSpec {
 	return []fnSpec{b, d}
 }
 
-// ---- target 2 (enumerateTables): placeholders filled in below ------------------------------------------------------
+// ---- target 2 (enumerateTables) -------------------------------------------------------------------------------------
+//   "recv": {"acpiDriver": {"rsdtAddr": "64", "useXSDT": "-1"}}   a METHOD of the listed struct marked "world" is translated over the
+//        world; the listed receiver fields are only read and become parameters v_<recv>_<field> (N, or bool for -1), in
+//        alphabetical order, right after the world;
+//   "mapfields": {"tableMap": "tableMap"}   a receiver field holding a Go map: `drv.f = make(map[..]..)` is the event
+//        GCall "<name>.make" [], `drv.f[k] = v` the event GCall "<name>.set" [GNum k; GNum v] (k a string(..) number, v a pointer);
+//   "printf": {"kfmt.Fprintf": "Fprintf"}   the statement kfmt.Fprintf(w, "format", a, b, ..) is the event
+//        GCall "Fprintf" [GBytes <bytes of the format string>; GNum a; GNum b; ..] (the writer is not modelled);
+//   "opaqueparams": ["io.Writer"]           parameters of these types are dropped (only handed to printf calls);
+//   "purefns": {"vmm.PageOffset": "acpi_vmm_PageOffset:64"}   a pure function of another package given by a Coq function;
+//   locals of type []uintptr: `var x []uintptr` (nil), `x = make([]uintptr, n)` (gmake: n zeros), x[i] = e, len(x), range x
+//        through main.go's machinery for local byte slices with element width 64;
+//   `var ( a = e1; b = e2; c T )` with loads in the initial values: split into `a := e1; b := e2; var c T`.
 
+type acpiRecvCfg map[string]string
+
+func acpiRecvInfo(ti tinfo) (string, bool) {
+	if ti.width == -30 && strings.HasPrefix(ti.named, "recv:") {
+		return ti.named[5:], true
+	}
+	return "", false
+}
+
+// acpiRecv (hook in main where the receiver is declared): a world method of a struct listed in "recv"
+func acpiRecv(tr *translator, decl *ast.FuncDecl, en *env, params *[]string) bool {
+	if !acpiOn() || !tr.fn.World || acpiC.Recv == nil {
+		return false
+	}
+	r := decl.Recv.List[0]
+	t := r.Type
+	if st, ok := t.(*ast.StarExpr); ok {
+		t = st.X
+	}
+	id, ok := t.(*ast.Ident)
+	if !ok {
+		return false
+	}
+	fields, ok := acpiC.Recv[id.Name]
+	if !ok {
+		return false
+	}
+	if len(r.Names) != 1 {
+		fail("%s: unnamed receiver", tr.fn.Name)
+	}
+	name := r.Names[0].Name
+	tr.mon = "world"
+	tr.ptrRecv = "world"
+	*params = append(*params, "("+v("world")+" : "+recName(structPkg["world"], "world")+")")
+	var fs []string
+	for f := range fields {
+		fs = append(fs, f)
+	}
+	sort.Strings(fs)
+	for _, f := range fs {
+		ty := "N"
+		if fields[f] == "-1" {
+			ty = "bool"
+		}
+		*params = append(*params, "("+v(name+"_"+f)+" : "+ty+")")
+	}
+	en.vars[name] = tinfo{width: -30, named: "recv:" + id.Name}
+	return true
+}
+
+// acpiParam (hook in main's parameter loop): parameters of an opaque type are dropped
+func acpiParam(tr *translator, p *ast.Field, en *env, params *[]string) bool {
+	if !acpiOn() || tr.mon != "world" {
+		return false
+	}
+	for _, o := range acpiC.OpaqueParams {
+		if exprText(p.Type) == o {
+			for _, n := range p.Names {
+				en.vars[n.Name] = tinfo{width: -31, named: "opaque:" + o}
+			}
+			return true
+		}
+	}
+	return false
+}
+
+// drv.f for a read-only receiver field
 func (tr *translator) acpiRecvField(t *ast.SelectorExpr, en *env) (string, tinfo, bool) {
-	return "", tinfo{}, false
+	id, ok := t.X.(*ast.Ident)
+	if !ok {
+		return "", tinfo{}, false
+	}
+	st, ok := acpiRecvInfo(en.vars[id.Name])
+	if !ok {
+		return "", tinfo{}, false
+	}
+	w, ok := acpiC.Recv[st][t.Sel.Name]
+	if !ok {
+		fail("%s: receiver field %s.%s is not listed in acpi.recv (only read-only fields are supported)", tr.fn.Name, st, t.Sel.Name)
+	}
+	var width int
+	fmt.Sscanf(w, "%d", &width)
+	return v(id.Name + "_" + t.Sel.Name), tinfo{width: width}, true
 }
 
 func (tr *translator) acpiPureCall(t *ast.CallExpr, en *env) (string, tinfo, bool) {
@@ -861,18 +957,192 @@ func (tr *translator) acpiPureCall(t *ast.CallExpr, en *env) (string, tinfo, boo
 	return "(" + n + " " + strings.Join(args, " ") + ")", ti, true
 }
 
+func isUintptrSlice(e ast.Expr) bool {
+	at, ok := e.(*ast.ArrayType)
+	if !ok || at.Len != nil {
+		return false
+	}
+	el := typeOf(at.Elt, "")
+	return el.width == 64 && !el.signed
+}
+
+// make([]uintptr, n)
 func (tr *translator) acpiMake(t *ast.CallExpr, en *env) (string, tinfo, bool) {
-	return "", tinfo{}, false
+	id, ok := t.Fun.(*ast.Ident)
+	if !ok || id.Name != "make" || len(t.Args) != 2 || !isUintptrSlice(t.Args[0]) {
+		return "", tinfo{}, false
+	}
+	if tr.noHoist > 0 {
+		fail("%s: make under && or ||", tr.fn.Name)
+	}
+	ns, nt := tr.expr(t.Args[1], en)
+	tmp := tr.tmp()
+	if nt.signed {
+		tr.pre = append(tr.pre, matchOpt(fmt.Sprintf("gmakes %d %s", nt.width, ns), tmp))
+	} else {
+		tr.pre = append(tr.pre, matchOpt(fmt.Sprintf("gmake %s", ns), tmp))
+	}
+	return tmp, tinfo{width: -4, elem: 64}, true
 }
 
+// the receiver's map field named by e (drv.tableMap), if any
+func (tr *translator) acpiMapField(e ast.Expr, en *env) (string, bool) {
+	sel, ok := e.(*ast.SelectorExpr)
+	if !ok || acpiC.MapFields == nil {
+		return "", false
+	}
+	id, ok := sel.X.(*ast.Ident)
+	if !ok {
+		return "", false
+	}
+	if _, isRecv := acpiRecvInfo(en.vars[id.Name]); !isRecv {
+		return "", false
+	}
+	name, ok := acpiC.MapFields[sel.Sel.Name]
+	return name, ok
+}
+
+// drv.m = make(map[K]V) ; drv.m[k] = v
 func (tr *translator) acpiMapStore(s *ast.AssignStmt, en *env, rest func(en *env) string) (string, bool) {
+	if len(s.Lhs) != 1 || len(s.Rhs) != 1 || s.Tok != token.ASSIGN {
+		return "", false
+	}
+	if name, ok := tr.acpiMapField(s.Lhs[0], en); ok {
+		c, isCall := s.Rhs[0].(*ast.CallExpr)
+		if !isCall || exprText(c.Fun) != "make" || len(c.Args) != 1 {
+			fail("%s: a map field may only be assigned make(map[..]..)", tr.fn.Name)
+		}
+		if _, isMap := c.Args[0].(*ast.MapType); !isMap {
+			fail("%s: a map field may only be assigned make(map[..]..)", tr.fn.Name)
+		}
+		return "let " + v(tr.ptrRecv) + " := " + tr.event(name+".make", nil) + " in\n  " + rest(en), true
+	}
+	if ix, ok := s.Lhs[0].(*ast.IndexExpr); ok {
+		if name, ok := tr.acpiMapField(ix.X, en); ok {
+			// Go evaluates the index and the right-hand side, then stores
+			ks, kt := tr.expr(ix.Index, en)
+			vs, vt := tr.expr(s.Rhs[0], en)
+			if kt.width <= 0 || vt.width <= 0 {
+				fail("%s: unsupported key or value in a map store", tr.fn.Name)
+			}
+			pre := tr.pre
+			tr.pre = nil
+			tr.hoistedCall = false
+			body := "let " + v(tr.ptrRecv) + " := " + tr.event(name+".set", []string{"(GNum " + ks + ")", "(GNum " + vs + ")"}) + " in\n  " + rest(en)
+			return tr.wrapPre(pre, body), true
+		}
+	}
 	return "", false
 }
 
+// kfmt.Fprintf(w, "format", args..)
 func (tr *translator) acpiExprStmt(s *ast.ExprStmt, en *env, rest func(en *env) string) (string, bool) {
-	return "", false
+	c, ok := s.X.(*ast.CallExpr)
+	if !ok || acpiC.Printf == nil {
+		return "", false
+	}
+	name, ok := acpiC.Printf[exprText(c.Fun)]
+	if !ok {
+		return "", false
+	}
+	if len(c.Args) < 2 {
+		fail("%s: %s without a format string", tr.fn.Name, exprText(c.Fun))
+	}
+	if id, isId := c.Args[0].(*ast.Ident); !isId || en.vars[id.Name].width != -31 {
+		fail("%s: the writer of %s is not an opaque parameter", tr.fn.Name, exprText(c.Fun))
+	}
+	lit, isLit := c.Args[1].(*ast.BasicLit)
+	if !isLit || lit.Kind != token.STRING {
+		fail("%s: the format of %s is not a string literal", tr.fn.Name, exprText(c.Fun))
+	}
+	str, err := strconv.Unquote(lit.Value)
+	if err != nil {
+		fail("%s: bad string literal %s", tr.fn.Name, lit.Value)
+	}
+	bs := "nil"
+	for i := len(str) - 1; i >= 0; i-- {
+		bs = fmt.Sprintf("%d :: %s", str[i], bs)
+	}
+	args := []string{"(GBytes (" + bs + "))"}
+	for _, a := range c.Args[2:] {
+		as, at := tr.expr(a, en)
+		if at.width <= 0 {
+			fail("%s: unsupported argument of %s", tr.fn.Name, exprText(c.Fun))
+		}
+		args = append(args, "(GNum "+as+")")
+	}
+	pre := tr.pre
+	tr.pre = nil
+	tr.hoistedCall = false
+	body := "let " + v(tr.ptrRecv) + " := " + tr.event(name, args) + " in\n  " + rest(en)
+	return tr.wrapPre(pre, body), true
 }
 
+// var ( a = e; b T = e; c []uintptr ): one name at a time; initial values with loads become := statements
 func (tr *translator) acpiDecl(s *ast.DeclStmt, stmts []ast.Stmt, en *env, k func(en *env) string) (string, bool) {
-	return "", false
+	gd, ok := s.Decl.(*ast.GenDecl)
+	if !ok || gd.Tok != token.VAR {
+		return "", false
+	}
+	count, special := 0, false
+	for _, sp := range gd.Specs {
+		vs := sp.(*ast.ValueSpec)
+		count += len(vs.Names)
+		if vs.Type != nil && isUintptrSlice(vs.Type) {
+			special = true
+		}
+		for _, val := range vs.Values {
+			if acpiHasLoad(val, en, tr) {
+				special = true
+			}
+		}
+	}
+	if !special {
+		return "", false
+	}
+	if count == 1 {
+		vs := gd.Specs[0].(*ast.ValueSpec)
+		n := vs.Names[0]
+		if len(vs.Values) == 0 {
+			// var x []uintptr
+			if _, dup := en.vars[n.Name]; dup {
+				fail("%s: var %s shadows a variable of an enclosing scope", tr.fn.Name, n.Name)
+			}
+			en2 := en.clone()
+			en2.vars[n.Name] = tinfo{width: -4, elem: 64}
+			return "let " + v(n.Name) + " := (@nil N) in\n  " + tr.block(stmts[1:], en2, k), true
+		}
+		var val ast.Expr = vs.Values[0]
+		if vs.Type != nil {
+			val = &ast.CallExpr{Fun: vs.Type, Args: []ast.Expr{val}}
+		}
+		as := &ast.AssignStmt{Lhs: []ast.Expr{n}, Tok: token.DEFINE, Rhs: []ast.Expr{val}}
+		return tr.block(append([]ast.Stmt{as}, stmts[1:]...), en, k), true
+	}
+	var seq []ast.Stmt
+	for _, sp := range gd.Specs {
+		vs := sp.(*ast.ValueSpec)
+		for i, n := range vs.Names {
+			one := &ast.ValueSpec{Names: []*ast.Ident{n}, Type: vs.Type}
+			if i < len(vs.Values) {
+				one.Values = []ast.Expr{vs.Values[i]}
+			}
+			seq = append(seq, &ast.DeclStmt{Decl: &ast.GenDecl{Tok: token.VAR, Specs: []ast.Spec{one}}})
+		}
+	}
+	return tr.block(append(seq, stmts[1:]...), en, k), true
+}
+
+// acpiHasLoad: does e read a field through a struct pointer?
+func acpiHasLoad(e ast.Expr, en *env, tr *translator) bool {
+	found := false
+	ast.Inspect(e, func(n ast.Node) bool {
+		if sel, ok := n.(*ast.SelectorExpr); ok {
+			if _, _, _, isPath := tr.acpiPath(sel, en); isPath {
+				found = true
+			}
+		}
+		return !found
+	})
+	return found
 }
